@@ -77,8 +77,15 @@ def _raw():
     return st.lists(st.sampled_from(_HOST_ALPHA), min_size=1, max_size=25).map("".join)
 
 
+def _anytext():
+    """Arbitrary Unicode (no surrogates) with citation-looking pieces spliced in."""
+    piece = st.one_of(st.text(alphabet=st.characters(blacklist_categories=("Cs",)), max_size=12),
+                      st.sampled_from(["1 U.S. 1", "Id.", " at 5", "supra", "§", "v.", "(1999)", "2 F.2d 3,", "___", " ", "\n"]))
+    return st.lists(piece, min_size=1, max_size=10).map("".join)
+
+
 def _cases(which, ra):
-    docs = st.one_of(legal.document(hostile=True), legal.document(hostile=True), _raw())
+    docs = st.one_of(legal.document(hostile=True), legal.document(hostile=True), _raw(), _anytext())
     return docs.map(lambda t: {"text": t, "tokenizer": which, "remove_ambiguous": ra})
 
 
